@@ -190,9 +190,19 @@ fn write_chunk(input: &[u8], input_used: &mut usize, w: &mut Writer, max_chunk: 
     // input into the output.
 
     // 5 is the smallest possible overhead
-    let available = w.available().saturating_sub(5);
+    let available = w.available();
 
-    let to_write = input.len().min(max_chunk).min(available);
+    let mut to_write = input.len().min(max_chunk).min(available.saturating_sub(5));
+
+    // Larger chunks need more than one hex digit for the length.
+    while to_write > 0 && to_write + hex_len(to_write) + 4 > available {
+        to_write -= 1;
+    }
+
+    // A zero sized chunk would end the body.
+    if to_write == 0 {
+        return false;
+    }
 
     let success = w.try_write(|w| {
         // chunk length
@@ -211,6 +221,15 @@ fn write_chunk(input: &[u8], input_used: &mut usize, w: &mut Writer, max_chunk: 
 
     // write another chunk?
     success && input.len() > to_write
+}
+
+fn hex_len(mut n: usize) -> usize {
+    let mut len = 1;
+    while n >= 16 {
+        n /= 16;
+        len += 1;
+    }
+    len
 }
 
 #[derive(Clone, Copy, PartialEq, Eq)]
